@@ -101,7 +101,20 @@ def pattern_encoder_cannot_decode_declared_value(case, v):
             elif spec['nodes'][it].get('deg') != [0] and it in exists:
                 n += 1
         return n
-    return any(n_eff(cc['src']) <= 1 or n_eff(cc['tgt']) <= 1 for cc in spec.get('conns', []))
+    if any(n_eff(cc['src']) <= 1 or n_eff(cc['tgt']) <= 1 for cc in spec.get('conns', [])):
+        return True
+    # ... or in some selection scenario: connectors under mutually exclusive options leave one per side
+    from . import refsel
+    try:
+        archs = refsel.Model(spec).sel_architectures(arch_max=2000)
+    except Exception:  # noqa
+        return False
+    for a in archs:
+        exists = set(a['nodes'])
+        for cc in spec.get('conns', []):
+            if n_eff(cc['src']) <= 1 or n_eff(cc['tgt']) <= 1:
+                return True
+    return False
 
 
 def pattern_encoder_single_option_variable(case, v):
